@@ -32,7 +32,8 @@ RULE = ('random call histories on one decoder state (decode of real-encoder pack
         'transition call) and the cross-fades, observed through the arithmetic macros of their inline loops; '
         'the packet-inspection functions are run on exact-size heap copies and with varying guard bytes behind the packet for every 1- and '
         '2-byte packet, structured 3/4-byte packets and generated / corrupted packets (opus_packet_has_lbrr also against the model); '
-        'a case is distinct by (operation, outcome class)')
+        'a fixed corpus of packets that once produced an undocumented error (C03\'s 168-byte budget packet) is decoded through every '
+        'entry point at every rate; a case is distinct by (operation, outcome class)')
 NOT_COVERED = [
     'index arithmetic INSIDE silk_Decode / resamplers, and of the CELT decoder everything below celt_decoder.c: the entropy / '
     'band decoding (unquant_*, quant_all_bands, anti_collapse: C03 / C17), the interior of the routines celt_decoder.c calls '
@@ -46,7 +47,11 @@ ASSUMPTIONS = [
     'len argument does not exceed the supplied buffer (the harness uses exact-size heap blocks under ASan)',
     'oracle contracts (monitored at run time by the wrapping harness): silk_Decode with payloadSize_ms in {10,20,40,60}, '
     'internalSampleRate in {8000,12000,16000}, nChannelsInternal in {1,2} returns 0 and nSamplesOut = (10|20) ms at the API rate; '
-    'celt_decode_with_ec(_dred) with a legal frame size and 0 <= len <= 1275 returns frame_size; ec_dec_bit_logp returns a bit '
+    'celt_decode_with_ec(_dred) with a legal frame size and 0 <= len <= 1275 returns frame_size — since /repo 59715713 this is true '
+    'of the code for EVERY byte string: its only error returns are the argument checks (celt_decoder.c:1061 / :1066), which '
+    'decodeNative_oracle_args excludes; before that fix the `ec_tell(dec) > 8*len` exit returned OPUS_INTERNAL_ERROR for a frame '
+    'ending an eighth-bit past its budget (found by C03; packet 1 of the fixed corpus); symbol-level support: C03 celtFrame_total '
+    '(the whole frame decodes from any decoder state, no assertion) and celtFrame_preserves_J; ec_dec_bit_logp returns a bit '
     'and advances ec_tell by at most logp; ec_dec_uint(ft) returns a value < ft; ec_tell >= 1',
     'float build with VAR_ARRAYS, no DRED / deep PLC / OSCE (the configuration of the baseline build)',
 ]
@@ -261,7 +266,11 @@ def _run_search(exe, args, timeout):
 
 def search(ctx):
     """The C01 predicate evaluated on the implementation (no model): return-value range, documented errors, canaries
-    (plain build) / ASan+UBSan (san build), finiteness of every produced sample, announced duration and
+    (plain build) / ASan+UBSan (san build); NO decode entry point (opus_decode / decode24 / decode_float / opus_decode_native,
+    multistream, projection) ever returns a code other than a sample count, OPUS_BAD_ARG, OPUS_BUFFER_TOO_SMALL or
+    OPUS_INVALID_PACKET — in particular never OPUS_INTERNAL_ERROR / UNIMPLEMENTED / INVALID_STATE / ALLOC_FAIL (witness kind
+    `reterr`), and an oracle-contract violation such as celt_decode_with_ec returning an error for legal arguments is a witness
+    too (kind `contract`); finiteness of every produced sample, announced duration and
     OPUS_GET_LAST_PACKET_DURATION, exact concealment durations, 20 s watchdog per call; single-stream, multistream and
     projection decoders with random layouts.  Packet-inspection functions (get_bandwidth / nb_channels / samples_per_frame /
     nb_frames / nb_samples, opus_decoder_get_nb_samples, has_lbrr, parse, parse_impl(self-delimited), multistream validate) on
